@@ -369,6 +369,13 @@ def termination_ctors(ck, ctx, rule):
             ok, _ = Q.gated(cfg, bb, gates)
             ok2, _ = Q.gated(cfg, bb, {(x, fl) for (x, tl) in g_s for fl in [Q.bool_edges(rc.blocks[x]["term"])[1]]})
             ck.ob(rule, "posix|interrupted-gated", ok and ok2, "Termination::Interrupted only when status.signal() == SIGINT (2) and the status is not success (gates %s)" % sorted(gates), span=s.get("loc"), fn=rc.nname)
+        # the number compared with SIGINT is the signal that terminated the waited-for process, nothing derived from its exit code
+        # (an ordinary `exit 130` is a failure, not an interruption that stops the build)
+        sig_sw = [(sbb, de) for sbb, st, de in Q.switches(ctx, rc) if de[0] != "discr" and any(c[1].endswith("::signal") for c in calls_in(de))]
+        for n_, (sbb, de) in enumerate(sig_sw):
+            others = sorted({c[1] for c in calls_in(de) if not c[1].endswith(("ExitStatusExt>::signal", "ExitStatusExt>::from_raw"))})
+            ck.ob(rule, "posix|signal-is-wait-status#%d" % n_, not others, "the value matched against SIGINT is ExitStatusExt::signal() of the status filled in by waitpid (other sources: %s)" % others, span=rc.blocks[sbb]["term"].get("loc"), fn=rc.nname)
+        ck.floor("matches on the terminating signal", len(sig_sw), 1)
         # conversely: death by SIGINT is always reported as Interrupted, and success() always as Success (no other constructor on those edges)
         sig_gates = set()
         for sbb, st, de in Q.switches(ctx, rc):
